@@ -160,6 +160,9 @@ def run(cx):
         cx.ob("R03c", mw, False, f"an iteration of the parse loop can repeat without any progress action (match, push, next alternative): path through lines {pth[-10:]}", stmt="no stuttering")
     # the body cannot fall off its end silently: last statement raises
     last = mw.body[-1]
+    if isinstance(last, ast.For) and last.orelse and not any(isinstance(x, ast.Return) for x in ast.walk(last)):
+        # `for .. : .. break` + `else: raise`: the else-branch is what runs when nothing was found
+        last = last.orelse[-1]
     ok = isinstance(last, ast.Raise) and call_name(last.exc) == "ParsingError"
     cx.ob("R03c", last, ok, "when nothing can be tried any more a ParsingError is raised" if ok else "the loop body does not end by raising ParsingError")
     # ---- roll-back: the entry the stack is cut at has an untried alternative, and the search for it terminates.
@@ -214,9 +217,22 @@ def run(cx):
         if ok:
             rp = cut.value.slice.upper.left.id
             g = {(norm(e), pol) for e, pol in facts(sw[0])}
-            ok = (f"{rp} >= 0", True) in g or (f"{rp} < 0", False) in g or (f"{rp} > -1", True) in g or (f"{rp} != -1", True) in g
+            in_for = any(isinstance(l, ast.For) and is_name(l.target, rp) for l in enclosing_loops(sw[0]))
+            ok = in_for or (f"{rp} >= 0", True) in g or (f"{rp} < 0", False) in g or (f"{rp} > -1", True) in g or (f"{rp} != -1", True) in g
     cx.ob("R03c", sw[0] if sw else mw, ok, "roll-back cuts the stack at the entry with an untried alternative and advances it" if ok else "roll-back does not truncate to the rollback point and switch its alternative")
-    if rp is not None:
+    if rp is not None and any(isinstance(l, ast.For) and is_name(l.target, rp) for l in ast.walk(mw)):
+        # the roll-back point is the variable of a `for` over a descending range: terminates; the cut happens under the test
+        fl = next(l for l in ast.walk(mw) if isinstance(l, ast.For) and is_name(l.target, rp))
+        desc = isinstance(fl.iter, ast.Call) and call_name(fl.iter) == "range" and len(fl.iter.args) == 3 and norm(fl.iter.args[2]) == "-1" and norm(fl.iter.args[1]) == "-1" \
+            and norm(fl.iter.args[0]) in ("len(parse_stack) - 1",)
+        if not desc:
+            raise AnalysisError("R03c", f"{REL}::LLParser.parse", "roll-back scan range not recognised")
+        vs = [untried_test(e, pol) for e, pol in facts(sw[0])]
+        if True not in vs and False not in vs:
+            raise AnalysisError("R03c", f"{REL}::LLParser.parse", "test selecting the roll-back point not recognised")
+        cx.ob("R03c", sw[0], True in vs, "the roll-back point (descending scan of the stack) has an untried alternative" if True in vs else
+              "the scan stops at an entry that may have no untried alternative (switching it runs past its last production)")
+    elif rp is not None:
         defs = [(st, v) for st, v in assignments(parse, rp) if v is not None]
         helper = None
         for st, v in defs:
